@@ -8,6 +8,9 @@ package crashx
 import (
 	"encoding/json"
 	"fmt"
+	gogit "github.com/go-git/go-git/v5"
+	"github.com/go-git/go-git/v5/plumbing"
+	"github.com/go-git/go-git/v5/plumbing/object"
 	"os"
 	"os/exec"
 	"path/filepath"
@@ -15,6 +18,7 @@ import (
 	"strconv"
 	"strings"
 	"sync"
+	"time"
 
 	"github.com/go-git/go-billy/v5"
 
@@ -429,6 +433,44 @@ func scenarios() []scenario {
 			_ = b.Close()
 		}, func(dir string, repo repository.ClockedRepo, raw *repository.GoGitRepo) {
 			hx.Must(bug.Pull(repo, resolvers(repo), "origin", author(repo, "alice")))
+		}},
+		{"merge-refused-foreign-root", func(dir string) {
+			// the remote-tracking ref holds a history that is valid on its own but does not fit the local one: the same first
+			// operation (hence the same id) stored again under another root commit, with an edit on top. The merge has to be
+			// refused; the local bug must be what it was at every instant of the attempt.
+			prepBase(dir, true)
+			a := openA(dir)
+			bg := theBug(a)
+			id := bg.Id()
+			commits, err := a.ListCommits("refs/bugs/" + id.String())
+			hx.Must(err)
+			rootCommit, err := a.ReadCommit(commits[0])
+			hx.Must(err)
+			// the root pack once more, committed by somebody else (same tree, other commit)
+			g, err := gogit.PlainOpen(filepath.Join(dir, "A"))
+			hx.Must(err)
+			sig := object.Signature{Name: "mallory", Email: "m@example.org", When: time.Unix(1500000000, 0)}
+			cm := object.Commit{Author: sig, Committer: sig, TreeHash: plumbing.NewHash(rootCommit.TreeHash.String())}
+			obj := g.Storer.NewEncodedObject()
+			obj.SetType(plumbing.CommitObject)
+			hx.Must(cm.Encode(obj))
+			h, err := g.Storer.SetEncodedObject(obj)
+			hx.Must(err)
+			hx.Must(a.UpdateRef("refs/bugs-scratch/x", repository.Hash(h.String())))
+			_ = a.Close()
+			// an edit on top of the foreign root, made with git-bug's own code in a scratch namespace-free way: read it as a
+			// bug under a temporary ref, append, commit, and hand the result to the remote-tracking ref
+			a = openA(dir)
+			hx.Must(a.CopyRef("refs/bugs-scratch/x", "refs/remotes/origin/bugs/"+id.String()))
+			hx.Must(a.RemoveRef("refs/bugs-scratch/x"))
+			_ = a.Close()
+			localEdit(dir, "the bug", "alice")
+		}, func(dir string, repo repository.ClockedRepo, raw *repository.GoGitRepo) {
+			for res := range bug.MergeAll(repo, resolvers(repo), "origin", author(repo, "alice")) {
+				if res.Err != nil {
+					hx.Must(res.Err)
+				}
+			}
 		}},
 		{"pull-several-entities", func(dir string) {
 			// one pull that creates a bug, fast-forwards one, merges one, and brings a new identity and a new version of another
